@@ -21,7 +21,8 @@ META = {
             "not receive it (call-site rule), Couplings.a is partially evaluated with mocked solver for both flag values across a "
             "segment that crosses the tau threshold and must issue identical solver calls, and the fixed/running coupling "
             "solutions are formula-identical at QED order 0 (expanded) / integrate the same ODE (exact). For the backward "
-            "inversion method: the matching operator's method is FORWARD whatever the setting when the matching is not inverse.",
+            "inversion method: the matching operator's method is FORWARD whatever the setting when the matching is not inverse."
+            " The exact solvers with and without the em_running flag integrate systems of the same dimension with the same right-hand side.",
     "note": "Identity of the formulas that are integrated implies bitwise identity of the results for a deterministic integrator "
             "(C03/C47). Array shapes that depend on an irrelevant setting but are never read (a_half for QED order 0) are listed.",
     "technique": "differential partial evaluation (two runs differing in one setting) + polynomial identity testing; call-site rules",
@@ -190,10 +191,16 @@ def run(chk):
 
     def solve_ivp(pe_, args, kwargs):
         f, span, y0 = args[0], args[1], args[2]
-        y = dag.sym("y0")
+        y0l = list(y0.flat()) if isinstance(y0, Arr) else list(y0) if isinstance(y0, (tuple, list)) else [y0]
+        dim = len(y0l)
+        # the state handed to the right-hand side has the dimension of the initial value: one coupling, or the coupled system
+        y = dag.sym("y0") if dim == 1 else Arr.from_nested([dag.sym(f"y{i}") for i in range(dim)])
         rhs = pe_.apply(f, [dag.sym("t"), y] + list(kwargs.get("args", [])), {})
-        rec.append((rhs, span[1], y0[0] if isinstance(y0, (tuple, list, Arr)) else y0))
-        return SimpleNamespace(y=[[dag.sym("SOL0")]])
+        rhs0 = rhs.flat()[0] if isinstance(rhs, Arr) else rhs[0] if isinstance(rhs, (list, tuple)) else rhs
+        if dim > 1:
+            rhs0 = dag.substitute(dag.tonode(rhs0), {"y0": dag.sym("y0")})
+        rec.append((rhs0, span[1], y0l[0], dim))
+        return SimpleNamespace(y=[[dag.sym(f"SOL{i}")] for i in range(dim)])
 
     pec.ext["scipy.integrate.solve_ivp"] = solve_ivp
     for n in (2, 3, 4):
@@ -207,12 +214,14 @@ def run(chk):
             out = pec.apply(pec.getattr(selfo, meth), args, {})
             outs[running] = (list(rec), out)
         (ra, oa), (rb, ob) = outs[False], outs[True]
-        ok = len(ra) == len(rb) == 1
+        ok = len(ra) == len(rb) == 1 and ra[0][3] == rb[0][3]      # the same number of solver calls, on systems of the same dimension
         if ok:
             ok, info = dag.is_zero_fp([dag.sub(ra[0][0], rb[0][0]), dag.sub(ra[0][1], rb[0][1]), dag.sub(ra[0][2], rb[0][2]),
                                        dag.sub(oa[1], ob[1])], chk.seed, 2)
         chk.decide(ok, "em-running-flag-irrelevant-without-qed", f"{CP}.Couplings.compute_exact_alphaem_running",
-                   f"order=({n},0): the exact solvers integrate different ODEs for the two flag values although QED is off",
+                   f"order=({n},0): the exact solvers integrate different ODEs for the two flag values although QED is off (solver calls: "
+                   f"{len(ra)} on a system of dimension {[r_[3] for r_ in ra]} without the flag, {len(rb)} of dimension {[r_[3] for r_ in rb]} with it; an adaptive "
+                   f"solver controls its steps on the whole state, so even an inert extra component changes a_s at the solver tolerance)",
                    where=src.func(f"{CP}.Couplings.compute_exact_alphaem_running").where, instance=f"exact,{n}", how="PE + PIT")
     # ---- backward inversion method when not backward -----------------------------------------------------------------
     fo = src.func("eko.evolution_operator.operator_matrix_element.OperatorMatrixElement.__init__")
